@@ -312,3 +312,11 @@ package parser
 //@ assume[src.nul] len(p.l.characters) > 0 ==> p.l.characters[0] != 0 && (p.l.prevToken.Type == "EOF" ==> p.l.position >= 1)
 //@ ensures[C03.grouped.err] result == nil ==> p.err != nil
 //@ ensures result == nil || ref(result) != nil
+
+// C20: a diagnostic names a position that exists in the source and quotes that line. Every parser error gets its
+// position from a token the lexer produced (setTokenError, peekError, ... take a token and pass its Start / End
+// positions; the C20 contracts of those functions bound them), never from arithmetic on a position. These are the
+// functions that build a ParserError; a new one has to be added here with the argument for the positions it passes
+// (seed C20i: a helper for the "unterminated ..." errors that put the caret one column AFTER the end of the last token -
+// for a source ending in a newline that column does not exist).
+//@ scan[C20.errors.constructors] C20 extcalls github.com/risor-io/risor/parser.NewParserError,github.com/risor-io/risor/parser.NewSyntaxError: (*Parser).illegalToken (*Parser).nextToken (*Parser).noPrefixParseFnError (*Parser).parseAssignmentValue (*Parser).parseFloat (*Parser).parseFromImport (*Parser).parseInt (*Parser).peekError (*Parser).setTokenError NewSyntaxError
